@@ -382,7 +382,7 @@ def generate(rng, seed, tier='quick'):
                 if x < p_loss:
                     pat.append({'a': 'lost'})
                 elif x < p_loss + 0.05:
-                    pat.append({'a': 'nack', 'reason': rng.choice([0, 50, 100, 150, 151]), 'delay_us': rng.choice([0, 50, 1000])})
+                    pat.append({'a': 'nack', 'reason': rng.choice([0, 50, 100, 150, 151, None]), 'delay_us': rng.choice([0, 50, 1000])})
                 elif x < p_loss + 0.12:
                     pat.append({'a': 'dup', 'delay_us': rng.choice([0, 50]), 'gap_us': rng.choice([0, 1, 1000, life * 1000])})
                 elif x < p_loss + 0.16:
